@@ -11,6 +11,17 @@ FUNCTIONS = [
     {"q": _C + "_xyz_to_lonlat_rad_no_norm", "standin": {}},
     {"q": _C + "_xyz_to_lonlat_deg", "standin": {}},
     _C + "_set_desired_longitude_range",
+    _C + "_populate_node_latlon",
+    _C + "_populate_node_xyz",
+    "uxarray.grid.grid.Grid.node_lon",
+    "uxarray.grid.grid.Grid.node_lat",
+    _C + "_populate_face_centroids",
+    _C + "_populate_edge_centroids",
+    _C + "_populate_face_centerpoints",
+    "uxarray.grid.grid.Grid.face_lon",
+    "uxarray.grid.grid.Grid.face_lat",
+    "uxarray.grid.grid.Grid.edge_lon",
+    "uxarray.grid.grid.Grid.edge_lat",
 ]
 STANDINS = ["coords"]
 ASSUMPTIONS = [
